@@ -589,6 +589,11 @@ class MacroProgram(ElementProgram):
                 value, None, key, translate,
             )
 
+            # The fallback stands in for the element: the translation
+            # domain and context that the element itself declares hold
+            # for it, too (those of elements inside do not).
+            fallback = wrap(fallback, DOMAIN, CONTEXT)
+
             if omit is False and start['namespace'] not in self.DROP_NS:
                 start_tag = nodes.Start(
                     start['name'],
